@@ -453,9 +453,77 @@ def conc_scripts(kind):
     return out
 
 
+def run_two_requests(prefix, kinds, accessors):
+    """Two different requests in progress at once (one Request object each, one task each) on one loop; every message of
+    either request is an event. Each accessor result must be what the same request gives alone."""
+    from baize.asgi import Request
+
+    obs = {"results": [None, None]}
+    with Session() as s:
+        def make(i):
+            B, ct = KINDS[kinds[i]]
+            a = max(1, len(B) // 2)
+            chunks = [B[:a], b"", B[a:]] if len(B) > 1 else [B]
+            msgs = [{"type": "http.request", "body": c, "more_body": k < len(chunks) - 1} for k, c in enumerate(chunks)]
+            idx = [0]
+
+            async def receive():
+                k = idx[0]
+                idx[0] += 1
+                if k >= len(msgs):
+                    await s.env.gate(f"zz{i}")
+                    return {"type": "http.disconnect"}
+                await s.env.gate(f"q{i}m{k}")
+                return dict(msgs[k])
+
+            req = Request(SV.to_scope(make_req(kinds[i], [])), receive)
+
+            async def job():
+                out = []
+                keep = []
+                for op in accessors[i]:
+                    got, obj = await asgi_access(req, op, keep)
+                    out.append(got)
+                obs["results"][i] = out
+            return job()
+
+        tasks = [s.loop.create_task(make(i)) for i in (0, 1)]
+
+        class All:
+            def done(self):
+                return all(t.done() for t in tasks)
+
+        x = s.drive(All(), prefix, env_filter=lambda n: not n.startswith("zz"))
+        obs["stuck"] = x.obs["stuck"]
+    return Execution(x.choices, x.points, obs)
+
+
+def two_requests(r, k, n):
+    combos = [(ka, kb, aa, ab) for ka in ("json", "multipart", "urlencoded") for kb in ("json", "multipart", "urlencoded", "raw")
+              for aa in (("form",), ("body", "json"), ("stream_full",)) for ab in (("form",), ("json",), ("body",))]
+    for ka, kb, aa, ab in combos[k::n]:
+        solo = []
+        for kind, acc in ((ka, aa), (kb, ab)):
+            probs, key, results = run_sequence_asgi(kind, [KINDS[kind][0]], acc, None)
+            solo.append(results)
+
+        def on_exec(x):
+            r.count("evaluations")
+            r.count("traces")
+            r.count("transitions", len(x.choices))
+            res = x.obs["results"]
+            if x.obs["stuck"] or res != solo:
+                r.violation("two-requests", {"mode": "two", "kinds": [ka, kb], "accessors": [list(aa), list(ab)], "schedule": list(x.choices)},
+                            f"two ASGI requests in progress at once ({ka}:{aa}, {kb}:{ab}), schedule {x.choices}: results {res!r:.250} but alone {solo!r:.250} (stuck={x.obs['stuck']})")
+        dfs(lambda prefix: run_two_requests(prefix, (ka, kb), (aa, ab)), on_exec)
+        r.count("distinct_nontrivial")
+    r.count("states", len(combos[k::n]))
+    r.sample({"two_requests": [ka, kb], "accessors": [list(aa), list(ab)]})
+
+
 # ---------------------------------------------------------------- shards
 def shards(tier, seed):
-    out = []
+    out = [("two", k, 8) for k in range(8)]
     for iface in ("wsgi", "asgi"):
         for kind in KINDS:
             out.append(("seq", iface, kind))
@@ -469,6 +537,9 @@ def shards(tier, seed):
 
 def run_shard(desc, tier):
     r = R()
+    if desc[0] == "two":
+        two_requests(r, desc[1], desc[2])
+        return r
     if desc[0] == "seq":
         _, iface, kind = desc
         B = KINDS[kind][0]
@@ -531,6 +602,10 @@ def finish(merged, tier):
 
 
 def replay(w):
+    if w["mode"] == "two":
+        x = run_two_requests(list(w["schedule"]), tuple(w["kinds"]), tuple(tuple(a) for a in w["accessors"]))
+        solo = [run_sequence_asgi(k, [KINDS[k][0]], tuple(a), None)[2] for k, a in zip(w["kinds"], w["accessors"])]
+        return x.obs["results"] != solo or bool(x.obs["stuck"]), {"results": x.obs["results"], "alone": solo}
     if w["mode"] == "seq":
         probs, key, results = run_sequence(w["iface"], w["kind"], w["chunks"], tuple(w["seq"]), w["disc_at"])
         return bool(probs), {"problems": [p[:3] for p in probs], "results": results}
